@@ -402,7 +402,16 @@ def run(ctx):
                     ydelay.append(dict(id="ydelay/%s/%s#%d" % (sc["id"][6:], key, seen[key]), mode="delay", cap=0, runs=sc["runs"],
                                        workload=sc["workload"], delay_key=key, delay_nth=seen[key]))
         rng.shuffle(ydelay)
-        ydelay = ydelay[: (2500 if thorough else 150)]
+        # statements at the edge of a critical section (they take a lock, or follow an unlock / wake-up / send) are held
+        # first - the windows between critical sections are where hand-overs go wrong -, at most four fifths of the
+        # budget; the rest goes to the other statements
+        edge = [d for d in ydelay if d["delay_key"].startswith("y:e:")]
+        rest = [d for d in ydelay if not d["delay_key"].startswith("y:e:")]
+        budget = 2500 if thorough else 150
+        ne = min(len(edge), budget * 4 // 5)
+        ydelay = edge[:ne] + rest[: budget - ne]
+        ctx.extra["yield_edge_occurrences"] = len(edge)
+        ctx.extra["yield_other_occurrences"] = len(rest)
         yhit = 0
         for sc, rr in zip(ydelay, A.run_driver(ctx, ydelay, binary=ybin, label="c06yd")):
             out = judge_session(ctx, sc, rr, what="delay " + sc["delay_key"])
